@@ -111,6 +111,7 @@ class Rec:
         self.ratios = {}  # name -> max err/tol
         self.counters = {}  # free-form integer counters (out_of_domain, oracle_unconverged, ...)
         self.ctx = {}  # current context merged into failure details
+        self.classifier = None  # property-specific mechanism classifier (mech, detail) -> mech
         self.notes = []
 
     # ----- bookkeeping
@@ -133,6 +134,11 @@ class Rec:
 
     # ----- verdict primitives
     def fail(self, mechanism, detail=None):
+        if self.classifier is not None:
+            try:
+                mechanism = self.classifier(mechanism, detail or {})
+            except Exception:
+                pass
         self.fail_counts[mechanism] = self.fail_counts.get(mechanism, 0) + 1
         lst = self.fails.setdefault(mechanism, [])
         if len(lst) < self.MAX_FAIL_PER_MECH:
